@@ -75,6 +75,13 @@ def programs():
     BRK3 = {"threshold": 3, "window": 8, "recovery": 2}
     brk("failure||failure||tick (threshold 3)", [], [[("failure", "T")], [("failure", "T")],
                                                      [("tick", 3)]], BRK3)
+    brk("probe failure||state", half_probe, [[("failure", "T")], [("state",)]])
+    brk("probe failure||state||allow", half_probe, [[("failure", "T")], [("state",)], [("allow",)]])
+    BRKC = {"threshold": 5, "window": 8, "recovery": 2, "class_thresholds": {"T": 2}}
+    brk("class-threshold failure||failure", [], [[("failure", "T")], [("failure", "T")]], BRKC)
+    brk("class-threshold one-short failure||failure||state", [("failure", "T")],
+        [[("failure", "T")], [("failure", "T")], [("state",)]],
+        {"threshold": 5, "window": 8, "recovery": 2, "class_thresholds": {"T": 3}})
     b2 = {"max": 2, "window": 4}
     bud("one-left consume||consume", b2, [("consume", 1)], [[("consume", 1)], [("consume", 1)]])
     bud("consume2||consume1", b2, [], [[("consume", 2)], [("consume", 1)]])
